@@ -1,6 +1,7 @@
 //! Shared fixtures: deterministic keys, epochs, hashes, a small async executor.
 
 pub mod epoch;
+pub mod net;
 pub mod votes;
 pub mod pool_driver;
 pub mod pool_model;
